@@ -26,7 +26,12 @@ def gen_fdwra_case(rng, oid, kind):
     freq = hvgen.gen_freq(rng, int(rng.integers(60, 160)))
     nw = int(rng.integers(5, 41)) if kind == "T" else int(rng.integers(4, 14))
     if kind == "T":
-        m = Mirror.trad(oid, freq, hvgen.gen_curve_set(rng, freq, nw))
+        rows = hvgen.gen_curve_set(rng, freq, nw)
+        if rng.random() < 0.15:
+            # an exact zero (amplitudes >= 0 are legal) in one window, at the frequency where the mean curve peaks: under the lognormal
+            # assumption the mean curve is 0 there (log 0 = -inf is a value, not a missing sample)
+            rows[int(rng.integers(0, nw)), int(np.argmax(rows.mean(axis=0)))] = 0.0
+        m = Mirror.trad(oid, freq, rows)
     else:
         naz = int(rng.integers(1, 5))
         azs = sorted(float(a) for a in rng.choice(np.arange(0, 180, 5), naz, replace=False))
@@ -40,6 +45,21 @@ def gen_fdwra_case(rng, oid, kind):
     par = dict(n=float(rng.choice([0.5, 1.0, 1.5, 2.0, 2.5, 3.0])), maxit=int(rng.choice([1, 2, 3, 50])),
                dfn=str(rng.choice(hvgen.DISTS + ["log-normal"])), dmc=str(rng.choice(hvgen.DISTS + ["log-normal"])),
                range=hvgen.gen_range(rng, freq) if rng.random() < 0.4 else (None, None))
+    return m, par
+
+
+def gen_exact_zero_case(rng, oid):
+    """integer frequencies, triangular curves peaking on integer frequencies, normal distributions: |mean fn - mean-curve peak| can be EXACTLY zero
+    while windows still lie outside mean +- n std -- the published algorithm removes them before it looks at the stopping rule"""
+    freq = np.arange(1.0, 16.0)
+    c = int(rng.integers(6, 10))
+    d1 = int(rng.integers(3, 5)); d2 = d1 if rng.random() < 0.7 else int(rng.integers(3, 5))
+    peaks = [c - 1] * 3 + [c] * 4 + [c + 1] * 3 + [c - d1, c + d2]   # symmetric core + one outlier each side (mostly symmetric too: mean fn = c exactly)
+    peaks = [peaks[j] for j in rng.permutation(len(peaks))]
+    rows = np.array([1.0 + np.maximum(0.0, 3.0 - np.abs(freq - p)) for p in peaks])
+    m = Mirror.trad(oid * 5, freq, rows)      # oid * 5: plain float64 containers
+    m.exact_zero = True
+    par = dict(n=2.0, maxit=int(rng.choice([1, 2, 50])), dfn="normal", dmc="normal", range=(None, None))
     return m, par
 
 
@@ -82,7 +102,10 @@ def run(ctx):
     nsc = ctx.budget(500, 6000)
     for i in range(n + nsc):
         kind = "T" if i % 3 != 2 else "A"
-        m, par = gen_fdwra_case(rng, i + 1, kind) if i < n else gen_scatter_case(rng, i + 1)
+        if i % 40 == 7:
+            m, par = gen_exact_zero_case(rng, i + 1)
+        else:
+            m, par = gen_fdwra_case(rng, i + 1, kind) if i < n else gen_scatter_case(rng, i + 1)
         entry = None
         ret, dbg = run_one(m, par)
         idx = len(lines) + len(m.lines) - 1
@@ -159,6 +182,23 @@ def run(ctx):
                         a = None if a != a else a
                         if not close(a, v, float(np.max(m.freq)), 1e-8) and not (key.startswith("mc_peak") ):
                             ctx.violation("iteration-statistics", dict(case=cj, iteration=j + 1, key=key, impl=a, model=v),
+                                          seam="DEBUG trace of hvsrpy.window_rejection")
+                if j == nt - 1 and j < len(dbg) and "mc_peak_frq_after" in dbg[j]:
+                    # the peak of the mean curve of the FINAL state: compared too, unless the mean curve has two (nearly) equally high maxima
+                    a, v = dbg[j]["mc_peak_frq_after"], vals[7]
+                    if not close(a, v, float(np.max(m.freq)), 1e-8):
+                        try:
+                            dmc = {"log-normal": "lognormal"}.get(par["dmc"], par["dmc"])
+                            mc = np.asarray(m.obj.mean_curve(distribution=dmc), dtype=float)
+                            ia, iv = int(np.argmin(np.abs(m.freq - a))), int(np.argmin(np.abs(m.freq - v)))
+                            tie = abs(mc[ia] - mc[iv]) <= 1e-9 * max(abs(mc[ia]), abs(mc[iv]))
+                        except Exception:  # noqa
+                            tie = False
+                        if tie:
+                            ctx.near_tie_skipped += 1
+                        else:
+                            ctx.violation("iteration-statistics", dict(case=cj, iteration=j + 1, key="mc_peak_frq_after", impl=a, model=v,
+                                                                       note="peak of the mean curve of the final state"),
                                           seam="DEBUG trace of hvsrpy.window_rejection")
             ctx.supporting["trace_iterations_compared"] = ctx.supporting.get("trace_iterations_compared", 0) + min(nt, len(dbg))
     # metamorphic probes on the implementation (supporting tests)
